@@ -242,3 +242,28 @@ def canon_x(F, e, sk, depth=2, defs=None):
             t = F.vars.get(v, {}).get('t', '')
             env[v] = '<' + canon_x(F, d, sk, depth - 1, defs) + '>' if depth > 1 else '<' + sk.canon(F, d, {}) + '>'
     return sk.canon(F, e, env)
+
+
+class Proxy:
+    """records the obligations of a shared rule function under another rule id"""
+    def __init__(self, chk, rid, only=None):
+        self.chk, self.rid, self.only = chk, rid, only
+
+    def __getattr__(self, a):
+        return getattr(self.chk, a)
+
+    def ob(self, rule, fn, cons, *a, **k):
+        if self.only is not None and not self.only(fn, cons):
+            return None
+        return self.chk.ob(self.rid, fn, cons, *a, **k)
+
+    def assumed(self, rule, fn, cons, *a, **k):
+        if self.only is not None and not self.only(fn, cons):
+            return None
+        return self.chk.assumed(self.rid, fn, cons, *a, **k)
+
+    def rule(self, rid, text):
+        pass
+
+    def require(self, *a):
+        return self.chk.require(*a)
